@@ -764,4 +764,275 @@ theorem fit_rets_fst (stop₀ : Bool) :
   cases stop₀ <;> simp [epochLoop_rets_fst]
 end retsfst
 
+/-! ### the `Timer` is transparent: with `time=True` the log is the log without it plus `print` entries -/
+
+/-- a log without the lines the `Timer` prints -/
+def noPrint (l : List Entry) : List Entry := l.filter fun | .print _ => false | _ => true
+
+section noprint
+variable (l₁ l₂ l : List Entry) (ev : Event) (i : Nat) (f : Bool) (v : Nat) (m : TimerMsg) (e : Int) (b : Nat)
+@[simp] theorem noPrint_append : noPrint (l₁ ++ l₂) = noPrint l₁ ++ noPrint l₂ := by simp [noPrint]
+@[simp] theorem noPrint_nil : noPrint [] = [] := rfl
+@[simp] theorem noPrint_emit : noPrint (.emit ev :: l) = .emit ev :: noPrint l := by simp [noPrint]
+@[simp] theorem noPrint_call : noPrint (.call i ev f v :: l) = .call i ev f v :: noPrint l := by simp [noPrint]
+@[simp] theorem noPrint_print : noPrint (.print m :: l) = noPrint l := by simp [noPrint]
+@[simp] theorem noPrint_ret : noPrint (.ret ev f :: l) = .ret ev f :: noPrint l := by simp [noPrint]
+@[simp] theorem noPrint_shuffle : noPrint (.shuffle e :: l) = .shuffle e :: noPrint l := by simp [noPrint]
+@[simp] theorem noPrint_opt : noPrint (.optStep e b :: l) = .optStep e b :: noPrint l := by simp [noPrint]
+@[simp] theorem noPrint_sched : noPrint (.schedStep e :: l) = .schedStep e :: noPrint l := by simp [noPrint]
+end noprint
+
+/-- projections do not see `print` entries -/
+theorem noPrint_proj (l : List Entry) :
+    events (noPrint l) = events l ∧ calls (noPrint l) = calls l ∧ rets (noPrint l) = rets l ∧
+    skeleton (noPrint l) = skeleton l := by
+  induction l with
+  | nil => simp
+  | cons x l ih =>
+    obtain ⟨h1, h2, h3, h4⟩ := ih
+    cases x <;> simp [h1, h2, h3, h4]
+
+/-- the same configuration with `time=` set to `t` -/
+def Cfg.withTimer (c : Cfg) (t : Bool) : Cfg := { c with timer := t }
+
+/-- "equal up to what the Timer adds": same log after dropping printed lines, same flag / version / scheduler count -/
+def TimerEq (r r' : List Entry × S) : Prop := noPrint r.1 = r'.1 ∧ r.2.key = r'.2.key
+
+section timer
+variable (c : Cfg) (R : Req)
+
+theorem noPrint_dispatchCbs (ev : Event) (ver : Nat) (cbs : List Nat) (stop : Bool) :
+    noPrint (dispatchCbs R ev ver cbs stop).1 = (dispatchCbs R ev ver cbs stop).1 := by
+  induction cbs generalizing stop with
+  | nil => simp [dispatchCbs]
+  | cons i rest ih => simp [dispatchCbs, ih]
+
+theorem noPrint_timerHandle (ev : Event) (s : S) : noPrint (timerHandle ev s).1 = [] := by
+  unfold timerHandle
+  split <;> (try split) <;> simp
+
+theorem key_eq {s s' : S} (h : s.key = s'.key) : s.stop = s'.stop ∧ s.ver = s'.ver ∧ s.sched = s'.sched := by
+  simp only [S.key, Prod.mk.injEq] at h
+  exact h
+
+theorem dispatch_timerEq (ev : Event) {s s' : S} (h : s.key = s'.key) :
+    TimerEq (dispatch (c.withTimer true) R ev s) (dispatch (c.withTimer false) R ev s') := by
+  obtain ⟨h1, h2, h3⟩ := key_eq h
+  unfold TimerEq dispatch Cfg.withTimer
+  simp only [if_true, Bool.false_eq_true, if_false, noPrint_emit, noPrint_append, noPrint_dispatchCbs,
+    noPrint_timerHandle, noPrint_ret, noPrint_nil, List.append_nil, timerHandle_state, S.key, h1, h2, h3]
+  exact ⟨trivial, trivial⟩
+
+theorem batchStep_timerEq (e : Int) (b : Nat) {s s' : S} (h : s.key = s'.key) :
+    TimerEq (batchStep (c.withTimer true) R e b s) (batchStep (c.withTimer false) R e b s') := by
+  unfold batchStep
+  obtain ⟨g1, g2⟩ := dispatch_timerEq c R (.batchStart e b) h
+  obtain ⟨k1, k2, k3⟩ := key_eq g2
+  have h2 : ({ (dispatch (c.withTimer true) R (.batchStart e b) s).2 with
+        stop := (dispatch (c.withTimer true) R (.batchStart e b) s).2.stop || R.mid e b,
+        ver := (dispatch (c.withTimer true) R (.batchStart e b) s).2.ver + 1 } : S).key =
+      ({ (dispatch (c.withTimer false) R (.batchStart e b) s').2 with
+        stop := (dispatch (c.withTimer false) R (.batchStart e b) s').2.stop || R.mid e b,
+        ver := (dispatch (c.withTimer false) R (.batchStart e b) s').2.ver + 1 } : S).key := by
+    simp only [S.key, k1, k2, k3]
+  obtain ⟨g3, g4⟩ := dispatch_timerEq c R (.batchEnd e b) h2
+  exact ⟨by simp only [noPrint_append, noPrint_opt, g1, g3], g4⟩
+
+theorem batchLoop_timerEq (e : Int) (bs : List Nat) {s s' : S} (h : s.key = s'.key) :
+    TimerEq (batchLoop (c.withTimer true) R e bs s) (batchLoop (c.withTimer false) R e bs s') := by
+  induction bs generalizing s s' with
+  | nil => exact ⟨by simp [batchLoop], by simpa [batchLoop] using h⟩
+  | cons b rest ih =>
+    obtain ⟨g1, g2⟩ := batchStep_timerEq c R e b h
+    have hs := (key_eq g2).1
+    cases hstop : (batchStep (c.withTimer false) R e b s').2.stop
+    · rw [batchLoop_cons_go _ R e b rest s (by rw [hs, hstop]), batchLoop_cons_go _ R e b rest s' hstop]
+      obtain ⟨g3, g4⟩ := ih g2
+      exact ⟨by simp only [noPrint_append, g1, g3], g4⟩
+    · rw [batchLoop_cons_stop _ R e b rest s (by rw [hs, hstop]), batchLoop_cons_stop _ R e b rest s' hstop]
+      exact ⟨g1, g2⟩
+
+theorem schedPhase_timerEq (e : Int) {s s' : S} (h : s.key = s'.key) :
+    TimerEq (schedPhase (c.withTimer true) e s) (schedPhase (c.withTimer false) e s') := by
+  obtain ⟨h1, h2, h3⟩ := key_eq h
+  unfold TimerEq schedPhase Cfg.withTimer
+  split <;> simp [S.key, h1, h2, h3]
+
+theorem runEpoch_timerEq (e : Int) {s s' : S} (h : s.key = s'.key) :
+    TimerEq (runEpoch (c.withTimer true) R e s) (runEpoch (c.withTimer false) R e s') := by
+  unfold runEpoch
+  obtain ⟨a1, a2⟩ := dispatch_timerEq c R (.epochStart e) h
+  obtain ⟨b1, b2⟩ := batchLoop_timerEq c R e (List.range c.numBatches) a2
+  obtain ⟨c1, c2⟩ := schedPhase_timerEq c e b2
+  obtain ⟨d1, d2⟩ := dispatch_timerEq c R (.epochEnd e) c2
+  exact ⟨by simp only [noPrint_shuffle, noPrint_append, a1]; simp only [Cfg.withTimer] at *; rw [b1, c1, d1], d2⟩
+
+theorem epochLoop_timerEq (es : List Int) {s s' : S} (h : s.key = s'.key) :
+    TimerEq (epochLoop (c.withTimer true) R es s) (epochLoop (c.withTimer false) R es s') := by
+  induction es generalizing s s' with
+  | nil => exact ⟨by simp [epochLoop], by simpa [epochLoop] using h⟩
+  | cons e rest ih =>
+    obtain ⟨g1, g2⟩ := runEpoch_timerEq c R e h
+    have hs := (key_eq g2).1
+    cases hstop : (runEpoch (c.withTimer false) R e s').2.stop
+    · rw [epochLoop_cons_go _ R e rest s (by rw [hs, hstop]), epochLoop_cons_go _ R e rest s' hstop]
+      obtain ⟨g3, g4⟩ := ih g2
+      exact ⟨by simp only [noPrint_append, g1, g3], g4⟩
+    · rw [epochLoop_cons_stop _ R e rest s (by rw [hs, hstop]), epochLoop_cons_stop _ R e rest s' hstop]
+      exact ⟨g1, g2⟩
+
+theorem fit_timerEq (stop₀ : Bool) :
+    TimerEq (fit (c.withTimer true) R stop₀) (fit (c.withTimer false) R stop₀) := by
+  cases stop₀
+  · unfold fit
+    simp only [Bool.false_eq_true, if_false]
+    obtain ⟨a1, a2⟩ := dispatch_timerEq c R .trainStart
+      (s := { stop := false, notified := false, ver := 0, sched := 0 })
+      (s' := { stop := false, notified := false, ver := 0, sched := 0 }) rfl
+    obtain ⟨b1, b2⟩ := epochLoop_timerEq c R (epochRange c.start c.epochs) a2
+    obtain ⟨c1, c2⟩ := dispatch_timerEq c R .trainEnd b2
+    exact ⟨by simp only [noPrint_append, a1]; simp only [Cfg.withTimer] at *; rw [b1, c1], c2⟩
+  · simp only [fit_stopped]; exact ⟨rfl, rfl⟩
+
+/-- without the Timer nothing is printed -/
+theorem prints_noPrint (l : List Entry) : prints (noPrint l) = [] := by
+  induction l with
+  | nil => rfl
+  | cons x l ih => cases x <;> simp [ih]
+end timer
+
+/-! ### the first handler invocation that raises -/
+
+theorem cutAtRaise_some {X : Nat → Event → Option PyErr} :
+    ∀ {l pre : List Entry} {e : PyErr}, cutAtRaise X l = some (pre, e) →
+      ∃ pre' i ev seen ver post, pre = pre' ++ [Entry.call i ev seen ver] ∧ l = pre ++ post ∧ X i ev = some e ∧
+        (∀ p ∈ calls pre', X p.1 p.2 = none) := by
+  intro l
+  induction l with
+  | nil => intro pre e h; simp [cutAtRaise] at h
+  | cons x l ih =>
+    intro pre e h
+    have other : ∀ (y : Entry), calls [y] = [] → (cutAtRaise X l).map (fun p => (y :: p.1, p.2)) = some (pre, e) →
+        ∃ pre' i ev seen ver post, pre = pre' ++ [Entry.call i ev seen ver] ∧ y :: l = pre ++ post ∧ X i ev = some e ∧
+          (∀ p ∈ calls pre', X p.1 p.2 = none) := by
+      intro y hy hm
+      cases hc : cutAtRaise X l with
+      | none => simp [hc] at hm
+      | some q =>
+        obtain ⟨q1, q2⟩ := q
+        simp only [hc, Option.map_some, Option.some.injEq, Prod.mk.injEq] at hm
+        obtain ⟨pre', i, ev, seen, ver, post, e1, e2, e3, e4⟩ := ih hc
+        refine ⟨y :: pre', i, ev, seen, ver, post, ?_, ?_, ?_, ?_⟩
+        · rw [← hm.1, e1]; rfl
+        · rw [← hm.1, e2]; rfl
+        · rw [← hm.2]; exact e3
+        · intro p hp
+          rw [calls_cons, hy] at hp
+          exact e4 p hp
+    cases x with
+    | call i ev seen ver =>
+      simp only [cutAtRaise] at h
+      cases hx : X i ev with
+      | some e' =>
+        simp only [hx, Option.some.injEq, Prod.mk.injEq] at h
+        refine ⟨[], i, ev, seen, ver, l, ?_, ?_, ?_, ?_⟩
+        · rw [← h.1]; rfl
+        · rw [← h.1]; rfl
+        · rw [← h.2]; exact hx
+        · intro p hp; simp at hp
+      | none =>
+        simp only [hx] at h
+        cases hc : cutAtRaise X l with
+        | none => simp [hc] at h
+        | some q =>
+          obtain ⟨q1, q2⟩ := q
+          simp only [hc, Option.map_some, Option.some.injEq, Prod.mk.injEq] at h
+          obtain ⟨pre', i', ev', seen', ver', post, e1, e2, e3, e4⟩ := ih hc
+          refine ⟨.call i ev seen ver :: pre', i', ev', seen', ver', post, ?_, ?_, ?_, ?_⟩
+          · rw [← h.1, e1]; rfl
+          · rw [← h.1, e2]; rfl
+          · rw [← h.2]; exact e3
+          · intro p hp
+            simp only [calls_call, List.mem_cons] at hp
+            rcases hp with rfl | hp
+            · exact hx
+            · exact e4 p hp
+    | emit ev => exact other _ rfl (by simpa [cutAtRaise] using h)
+    | print m => exact other _ rfl (by simpa [cutAtRaise] using h)
+    | ret ev f => exact other _ rfl (by simpa [cutAtRaise] using h)
+    | shuffle e' => exact other _ rfl (by simpa [cutAtRaise] using h)
+    | optStep e' b => exact other _ rfl (by simpa [cutAtRaise] using h)
+    | schedStep e' => exact other _ rfl (by simpa [cutAtRaise] using h)
+
+theorem cutAtRaise_none {X : Nat → Event → Option PyErr} :
+    ∀ {l : List Entry}, (∀ p ∈ calls l, X p.1 p.2 = none) → cutAtRaise X l = none := by
+  intro l
+  induction l with
+  | nil => intro _; rfl
+  | cons x l ih =>
+    intro h
+    have hl : cutAtRaise X l = none := ih (fun p hp => h p (by rw [calls_cons]; exact List.mem_append_right _ hp))
+    cases x with
+    | call i ev seen ver =>
+      have := h (i, ev) (by simp)
+      simp only at this
+      simp [cutAtRaise, this, hl]
+    | emit ev => simp [cutAtRaise, hl]
+    | print m => simp [cutAtRaise, hl]
+    | ret ev f => simp [cutAtRaise, hl]
+    | shuffle e' => simp [cutAtRaise, hl]
+    | optStep e' b => simp [cutAtRaise, hl]
+    | schedStep e' => simp [cutAtRaise, hl]
+
+/-! ### `CallbackList` container operations as plain list surgery -/
+
+theorem insertIdx_take_drop {α : Type} (x : α) : ∀ (l : List α) (i : Nat), i ≤ l.length →
+    l.insertIdx i x = l.take i ++ x :: l.drop i := by
+  intro l
+  induction l with
+  | nil => intro i h; have : i = 0 := by simpa using h
+           subst this; rfl
+  | cons a l ih =>
+    intro i h
+    cases i with
+    | zero => rfl
+    | succ i =>
+      rw [List.insertIdx_succ_cons, ih i (by simpa using h)]
+      rfl
+
+theorem pyIdx_some {n : Nat} {k : Int} {j : Nat} (h : pyIdx n k = some j) :
+    j < n ∧ (j : Int) = (if k < 0 then k + n else k) := by
+  unfold pyIdx at h
+  by_cases hk : k < 0
+  · simp only [hk, if_true] at h ⊢
+    by_cases h1 : k + (n : Int) < 0
+    · simp [h1] at h
+    · by_cases h2 : (k + (n : Int)).toNat < n
+      · simp only [h1, if_false, h2, if_true, Option.some.injEq] at h
+        subst h; exact ⟨h2, by omega⟩
+      · simp [h1, h2] at h
+  · simp only [hk, if_false] at h ⊢
+    by_cases h2 : k.toNat < n
+    · simp only [h2, if_true, Option.some.injEq] at h
+      subst h; exact ⟨h2, by omega⟩
+    · simp [h2] at h
+
+theorem pyIdx_none {n : Nat} {k : Int} (h : pyIdx n k = none) : k < -(n : Int) ∨ (n : Int) ≤ k := by
+  unfold pyIdx at h
+  by_cases hk : k < 0
+  · simp only [hk, if_true] at h
+    by_cases h1 : k + (n : Int) < 0
+    · left; omega
+    · by_cases h2 : (k + (n : Int)).toNat < n
+      · simp [h1, h2] at h
+      · omega
+  · simp only [hk, if_false] at h
+    by_cases h2 : k.toNat < n
+    · simp [h2] at h
+    · right; omega
+
+theorem insIdx_le (n : Nat) (k : Int) : insIdx n k ≤ n := by
+  unfold insIdx
+  by_cases hk : k < 0 <;> simp only [hk, if_true, if_false] <;> (try split) <;> omega
+
 end QV.Train
